@@ -64,7 +64,9 @@ def run(c):
         n1 = rng.choice([4, 4, 6, 8])
         k = rng.rng(1, 30)
         r = rng.choice([rng.rng(n1, n1 + 4), rng.rng(n1, max(n1, k * n1 // 2 + 3)), min(60, k * n1 + 5)])
-        other = "%d:%d:%d:%d,%d:%d:%d:%d" % (60, 20, n1, rng.rng(1, 2 ** 31 - 2), 3, 40, n1, rng.rng(1, 2 ** 31 - 2))   # one without, one with extra entries
+        oth = ["%d:%d:%d:%d" % (60, 20, n1, rng.rng(1, 2 ** 31 - 2)), "%d:%d:%d:%d" % (3, 40, n1, rng.rng(1, 2 ** 31 - 2))]   # one without, one with extra entries
+        rng.shuffle(oth)                                                                                                       # either may be the last one configured
+        other = ",".join(oth)
         preqs.append("Q %d %d %d %d %d - %s" % (k, max(r, n1), n1, rng.rng(1, 2 ** 31 - 2), rng.choice([1, 2]), other))
     pexe = vlib.build_c(c.snap, "drv_pchk", "drv_pchk.c")
     pans, pcr = vlib.run_driver(pexe, preqs, prefix="R")
